@@ -411,6 +411,59 @@ fn refusal(r: &Report) {
     }
 }
 
+/// merge must never panic, whatever the two PSETs are: a menu of odd PSETs (different input / output counts,
+/// lock-time conflicts that make unique_id() an error on both sides, missing output values), all ordered pairs.
+fn merge_totality(r: &Report) {
+    use elements::pset::{Input, Output};
+    let conflict = |n_in: usize, n_out: usize| {
+        let mut p = base_pset(n_in.max(2), n_out, 0);
+        p.inputs_mut()[0].required_time_locktime = Some(elements::locktime::Time::from_consensus(500_000_001).unwrap());
+        p.inputs_mut()[1].required_height_locktime = Some(elements::locktime::Height::from_consensus(10).unwrap());
+        p
+    };
+    let missing_value = |n_in: usize, n_out: usize| {
+        let mut p = base_pset(n_in, n_out.max(1), 0);
+        p.outputs_mut()[0].amount = None;
+        p
+    };
+    let mut menu: Vec<(String, Pset)> = Vec::new();
+    for (n_in, n_out) in [(0usize, 0usize), (1, 1), (2, 1), (3, 1), (2, 3), (1, 3)] {
+        menu.push((format!("plain/{}in{}out", n_in, n_out), base_pset(n_in, n_out, 0)));
+        menu.push((format!("locktime-conflict/{}in{}out", n_in.max(2), n_out), conflict(n_in, n_out)));
+        menu.push((format!("missing-output-value/{}in{}out", n_in, n_out.max(1)), missing_value(n_in, n_out)));
+    }
+    {
+        // declared counts that disagree with the maps cannot be built through the API; extremes of the API instead
+        let mut p = Pset::new_v2();
+        p.add_input(Input::default());
+        p.add_output(Output::default());
+        menu.push(("default-maps".into(), p));
+    }
+    for (na, a) in &menu {
+        for (nb, b) in &menu {
+            r.eval(1);
+            r.state(1);
+            r.trans(1);
+            let before_in = a.n_inputs();
+            let mut m = a.clone();
+            match guard(|| m.merge(b.clone())) {
+                Err(p) => r.violation(format!("merge/panic@{}", crate::engine::panic_site(&p)), json!({"self": na, "other": nb}), p),
+                Ok(res) => {
+                    r.outcome(if res.is_ok() { "totality:merged" } else { "totality:refused" });
+                    if m.n_inputs() != before_in {
+                        r.violation("merge/changed-input-count", json!({"self": na, "other": nb}), "merge changed the number of inputs");
+                    }
+                    // whatever happened, the result must still serialize
+                    if let Err(p) = guard(|| serialize(&m)) {
+                        r.violation("merge/result-does-not-serialize", json!({"self": na, "other": nb}), p);
+                    }
+                }
+            }
+        }
+    }
+    r.set_extra("merge_totality_pairs", json!(menu.len() * menu.len()));
+}
+
 pub fn run(r: &Report) {
     let thorough = r.tier.thorough();
     r.set_rule(
@@ -476,6 +529,7 @@ pub fn run(r: &Report) {
         }
     }
     refusal(r);
+    merge_totality(r);
     xpub_table(r);
     r.assume("additions are disjoint or identical (same non-map field with different values in two descendants is a conflict and is skipped, as the property says nothing about it)");
     r.assume("field values from two variants each; fingerprint of 'same result' = serialized bytes");
